@@ -14,10 +14,12 @@ import re
 
 import z3
 
-from .values import (V, VInt, VBool, VNone, VStr, VTuple, VBox, VRef, VConc,
+from .values import (VSymSet, V, VInt, VBool, VNone, VStr, VTuple, VBox, VRef, VConc,
                      VFunc, VExc, VMatch, Val, ListCell, SeqCell, DictCell,
                      ObjCell, StreamCell, Unsupported, box, from_py,
-                     SeqString, SeqVal, is_concrete_str, concrete_str)
+                     SeqString, SeqVal, is_concrete_str, concrete_str,
+                     L_len, L_at, list_sort)
+from . import lists
 from .symex import (PathEnd, PyRaise, truth, to_bool, eq, as_int, seq_elem,
                     elem_expr, norm_index, slice_str, unbox_choose, elem_sort)
 from . import regex as rx
@@ -25,8 +27,8 @@ from . import regex as rx
 S = z3.StringVal
 
 # --- uninterpreted spec-level functions shared with contracts ----------------
-F_Join = z3.Function('Join', z3.StringSort(), SeqString, z3.StringSort())
-F_ConcatAll = z3.Function('ConcatAll', SeqString, z3.StringSort())
+F_Join = lists.F_Join
+F_ConcatAll = lists.F_ConcatAll
 F_Count = z3.Function('Count', z3.StringSort(), z3.StringSort(), z3.IntSort())
 F_Split = z3.Function('Split', z3.StringSort(), z3.StringSort(), SeqString)
 # codecs (A-codec): canonical name, encoding without BOM, BOM, decode
@@ -88,6 +90,9 @@ def ite(it, c, a, b):
 # ---------------------------------------------------------------------------
 def getitem(it, obj, idx):
     ctx = it.ctx
+    if ctx.spec_mode and obj is VNone:
+        # specification expressions are total: unspecified value
+        return VBox(ctx.fresh('unspec', Val))
     if isinstance(obj, VBox):
         obj = unbox_choose(ctx, obj)
     if isinstance(obj, VTuple):
@@ -121,12 +126,19 @@ def getitem(it, obj, idx):
                 it.raise_(IndexError)
         if isinstance(c, SeqCell):
             i = as_int(idx)
-            n = z3.Length(c.e)
+            n = L_len(c.e)
+            if ctx.spec_mode:
+                # specifications index mathematically; only a negative
+                # literal wraps around
+                ic = z3.simplify(i)
+                if z3.is_int_value(ic) and ic.as_long() < 0:
+                    i = n + ic.as_long()
+                return seq_elem(c, L_at(c.e, i))
             ok = z3.And(i >= -n, i < n)
-            if not ctx.spec_mode and not ctx.branch(ok):
+            if not ctx.branch(ok):
                 it.raise_(IndexError)
-            j = z3.simplify(z3.If(i < 0, i + n, i))
-            return seq_elem(c, c.e[j])
+            j = ctx.ite(i < 0, i + n, i)
+            return seq_elem(c, L_at(c.e, j))
         if isinstance(c, DictCell):
             return dict_get(it, c, idx, default=None, raise_key=True)
     if isinstance(obj, VConc) and isinstance(obj.py, dict):
@@ -151,15 +163,27 @@ def getslice(it, obj, lo, hi):
     lo_e = as_int(lo) if lo is not None and lo is not VNone else None
     hi_e = as_int(hi) if hi is not None and hi is not VNone else None
     if isinstance(obj, VStr):
-        return VStr(slice_str(obj.e, lo_e, hi_e), obj.b)
+        # word-equation view of  x[:-k]  (k a positive constant, |x| >= k):
+        # x = pre . suf with |suf| = k
+        if lo_e is None and hi_e is not None and not ctx.spec_mode:
+            hk = z3.simplify(hi_e)
+            if z3.is_int_value(hk) and hk.as_long() < 0 and \
+                    ctx.decide(z3.Length(obj.e) >= -hk.as_long()) is True:
+                pre = ctx.fresh_str('pre')
+                suf = ctx.fresh_str('suf')
+                ctx.assume(obj.e == z3.Concat(pre, suf))
+                ctx.assume(z3.Length(suf) == -hk.as_long())
+                return VStr(pre, obj.b)
+        return VStr(slice_str(obj.e, lo_e, hi_e, ctx), obj.b)
     if isinstance(obj, VRef):
         c = ctx.cell(obj)
         if isinstance(c, SeqCell):
-            n = z3.Length(c.e)
-            a = norm_index(lo_e, n) if lo_e is not None else z3.IntVal(0)
-            b = norm_index(hi_e, n) if hi_e is not None else n
-            ln = z3.If(b - a < 0, z3.IntVal(0), b - a)
-            return ctx.alloc(SeqCell(z3.simplify(z3.Extract(c.e, a, ln)),
+            n = L_len(c.e)
+            a = norm_index(lo_e, n, ctx) if lo_e is not None \
+                else z3.IntVal(0)
+            b = norm_index(hi_e, n, ctx) if hi_e is not None else n
+            ln = ctx.ite(b - a < 0, z3.IntVal(0), b - a)
+            return ctx.alloc(SeqCell(lists.l_slice(ctx, c.e, a, ln),
                                      c.elem))
         if isinstance(c, ListCell):
             a = _const_int(lo) if lo_e is not None else None
@@ -180,6 +204,8 @@ def setitem(it, obj, idx, v):
     if isinstance(obj, VRef):
         c = ctx.cell(obj)
         if isinstance(c, DictCell):
+            if c.sym is None and not c.items and not _is_const_key(idx):
+                c.sym = empty_sym_dict()
             if c.sym is not None and not _is_const_key(idx):
                 arr, dom = c.sym
                 k = _key_expr(idx)
@@ -208,17 +234,20 @@ def setitem(it, obj, idx, v):
             return
         if isinstance(c, SeqCell):
             i = as_int(idx)
-            n = z3.Length(c.e)
+            n = L_len(c.e)
             ok = z3.And(i >= -n, i < n)
             if not ctx.branch(ok):
                 it.raise_(IndexError)
-            j = z3.simplify(z3.If(i < 0, i + n, i))
+            j = ctx.ite(i < 0, i + n, i)
             x = elem_expr(c.elem, v)
-            c.e = z3.simplify(z3.Concat(
-                z3.Extract(c.e, z3.IntVal(0), j), z3.Unit(x),
-                z3.Extract(c.e, j + 1, n - j - 1)))
+            c.e = lists.l_set(ctx, c.e, j, x)
             return
     raise Unsupported('item store on %r' % (obj,))
+
+
+def empty_sym_dict():
+    return (z3.K(z3.StringSort(), Val.NoneV),
+            z3.K(z3.StringSort(), z3.BoolVal(False)))
 
 
 def _is_const_key(v):
@@ -332,7 +361,16 @@ def contains(it, container, item):
                              + [z3.BoolVal(False)])
             return z3.Select(c.sym[1], _key_expr(item))
         if isinstance(c, SeqCell):
-            return z3.Contains(c.e, z3.Unit(elem_expr(c.elem, item)))
+            j = z3.Int('memj')
+            return z3.Exists([j], z3.And(
+                j >= 0, j < L_len(c.e),
+                L_at(c.e, j) == elem_expr(c.elem, item)))
+    if isinstance(container, VSymSet):
+        if isinstance(item, VBox):
+            item = unbox_choose(ctx, item)
+        if not isinstance(item, VStr) or item.b:
+            return z3.BoolVal(False)
+        return z3.Select(container.member, item.e)
     raise Unsupported('membership in %r' % (container,))
 
 
@@ -377,15 +415,16 @@ def binop(it, op, a, b, node):
             if isinstance(ca, ListCell) and isinstance(cb, ListCell):
                 return ctx.alloc(ListCell(ca.items + cb.items))
             if isinstance(ca, ListCell) and isinstance(cb, SeqCell):
-                pre = [z3.Unit(elem_expr(cb.elem, x)) for x in ca.items]
-                return ctx.alloc(SeqCell(z3.Concat(*(pre + [cb.e])),
-                                         cb.elem))
+                pre = [elem_expr(cb.elem, x) for x in ca.items]
+                return ctx.alloc(SeqCell(
+                    lists.l_concat(ctx, pre, cb.e, []), cb.elem))
             if isinstance(ca, SeqCell) and isinstance(cb, ListCell):
-                post = [z3.Unit(elem_expr(ca.elem, x)) for x in cb.items]
-                return ctx.alloc(SeqCell(z3.Concat(*([ca.e] + post)),
-                                         ca.elem))
+                post = [elem_expr(ca.elem, x) for x in cb.items]
+                return ctx.alloc(SeqCell(
+                    lists.l_concat(ctx, [], ca.e, post), ca.elem))
             if isinstance(ca, SeqCell) and isinstance(cb, SeqCell):
-                return ctx.alloc(SeqCell(z3.Concat(ca.e, cb.e), ca.elem))
+                return ctx.alloc(SeqCell(
+                    lists.l_concat2(ctx, ca.e, cb.e), ca.elem))
         if a is VNone or b is VNone or type(a) is not type(b):
             it.raise_(TypeError)
     if isinstance(op, ast.Mult):
@@ -523,7 +562,7 @@ def comprehension(it, e, kind):
                 raise Unsupported('filter over symbolic sequence')
             # map over a symbolic sequence: element-wise function
             j = ctx.fresh_int('j')
-            it.assign(g.target, seq_elem(c, c.e[j]))
+            it.assign(g.target, seq_elem(c, L_at(c.e, j)))
             ctx.spec_mode += 1
             try:
                 body = it.ev(e.elt)
@@ -532,10 +571,12 @@ def comprehension(it, e, kind):
             if not isinstance(body, VStr):
                 raise Unsupported('map result kind')
             kind_out = 'bytes' if body.b else 'str'
-            m = ctx.fresh('map', SeqString)
-            ctx.assume(z3.Length(m) == z3.Length(c.e))
-            ctx.assume(z3.ForAll([j], z3.Implies(
-                z3.And(j >= 0, j < z3.Length(c.e)), m[j] == body.e)))
+            m = lists.fresh_list(ctx, SeqString, 'map')
+            n = L_len(c.e)
+            ctx.assume(L_len(m) == n)
+            ctx.assume_forall(j, z3.Implies(
+                z3.And(j >= 0, j < n), L_at(m, j) == body.e),
+                defaults=[z3.IntVal(0), n - 1, n - 2])
             ctx.ghost.setdefault('maps', []).append((m, c.e, j, body.e))
             return ctx.alloc(SeqCell(m, kind_out))
         raise Unsupported('comprehension over %r' % (src,))
@@ -703,7 +744,7 @@ def builtin_len(it, v):
         if isinstance(c, ListCell):
             return VInt(len(c.items))
         if isinstance(c, SeqCell):
-            return VInt(z3.Length(c.e))
+            return VInt(L_len(c.e))
         if isinstance(c, DictCell) and c.sym is None:
             return VInt(len(c.items))
     if isinstance(v, VConc) and hasattr(v.py, '__len__'):
@@ -786,6 +827,13 @@ def builtin_int(it, args, kwargs):
 
 def builtin_sorted(it, args, kwargs):
     ctx = it.ctx
+    if isinstance(args[0], VSymSet):
+        sq = lists.fresh_list(ctx, SeqString, 'sorted')
+        j = ctx.fresh_int('sj')
+        ctx.assume_forall(j, z3.Implies(
+            z3.And(j >= 0, j < L_len(sq)),
+            z3.Select(args[0].member, L_at(sq, j))))
+        return ctx.alloc(SeqCell(sq, 'str'))
     items = iter_concrete(it, args[0])
     if items is None:
         raise Unsupported('sorted of symbolic sequence')
@@ -996,8 +1044,7 @@ def list_method(it, ref, c, name, args, kwargs):
         if isinstance(c, ListCell):
             c.items.append(args[0])
         else:
-            c.e = z3.simplify(z3.Concat(
-                c.e, z3.Unit(elem_expr(c.elem, args[0]))))
+            c.e = lists.l_append(ctx, c.e, elem_expr(c.elem, args[0]))
         return VNone
     if name == 'pop':
         if args:
@@ -1006,12 +1053,12 @@ def list_method(it, ref, c, name, args, kwargs):
             if not c.items:
                 it.raise_(IndexError)
             return c.items.pop()
-        n = z3.Length(c.e)
+        n = L_len(c.e)
         if not ctx.branch(n > 0):
             it.raise_(IndexError)
-        last = seq_elem(c, z3.simplify(c.e[n - 1]))
-        c.e = z3.simplify(z3.Extract(c.e, z3.IntVal(0), n - 1))
-        return last
+        new, last = lists.l_pop(ctx, c.e)
+        c.e = new
+        return seq_elem(c, last)
     raise Unsupported('list.%s' % name)
 
 
